@@ -36,13 +36,15 @@ def wire (k : Core) (fnode xnode : Nat) (ci : Option Nat) : Core :=
   let k := match ci with
     | some i => k.from xnode i
     | none => k
+  -- `xnode` was an input of `fnode` already before this argument
+  let repeated := (objectsOf k.frm fnode).contains xnode
   let k := k.from fnode xnode
   let k := match ci with
     | some i => (intsOf k.ints xnode).foldl (fun k j => k.from j i) k
     | none => k
   let k := (intsOf k.ints fnode).foldl (fun k j => if some j != ci then k.from j xnode else k) k
   match ci with
-  | some i => (objectsOf k.frm fnode).eraseDups.foldl (fun k fin => if xnode != fin then k.from i fin else k) k
+  | some i => (objectsOf k.frm fnode).eraseDups.foldl (fun k fin => if xnode != fin || repeated then k.from i fin else k) k
   | none => k
 
 /-- reserve the internal node of a function-typed argument -/
@@ -126,6 +128,7 @@ def wireG (c : GCfg) (origin : Option Node) (g : GState) (cur fnode xnode : Nat)
   let g := match currentInternal with
     | some i => gAddFrom c g xnode i
     | none => g
+  let repeated := (objectsOf g.fd.frm fnode).contains xnode
   let g := gAddFrom c g fnode xnode
   let g := match currentInternal with
     | some i => ((g.internals.filter (fun (p : Nat × Nat) => p.1 == xnode)).map (fun (p : Nat × Nat) => p.2)).foldl (fun g j => gAddFrom c g j i) g
@@ -134,7 +137,7 @@ def wireG (c : GCfg) (origin : Option Node) (g : GState) (cur fnode xnode : Nat)
     (fun g j => if some j != currentInternal then gAddFrom c g j xnode else g) g
   let g := match currentInternal with
     | some i =>
-      let g := (objectsOf g.fd.frm fnode).eraseDups.foldl (fun g fin => if xnode != fin then gAddFrom c g i fin else g) g
+      let g := (objectsOf g.fd.frm fnode).eraseDups.foldl (fun g fin => if xnode != fin || repeated then gAddFrom c g i fin else g) g
       match origin with
       | some o => if c.withWorkflowOrigin then g.add (.b i, .tf "origin", o) else g
       | none => g
@@ -238,7 +241,11 @@ theorem coreOf_wireG (c : GCfg) (origin : Option Node) (g : GState) (cur fnode x
     simp only [wireG, wire]
     show coreOf (originG c origin (originG c origin _ i) cur) = _
     rw [coreOf_originG, coreOf_originG]
-    rw [coreOf_foldl_from c (fun fin => xnode != fin) (fun _ => i) (fun fin => fin)]
+    have hr : (gAddFrom c g xnode i).fd.frm = ((coreOf g).from xnode i).frm := by
+      rw [frm_coreOf, coreOf_gAddFrom]
+    rw [hr]
+    generalize (objectsOf ((coreOf g).from xnode i).frm fnode).contains xnode = rep
+    rw [coreOf_foldl_from c (fun fin => xnode != fin || rep) (fun _ => i) (fun fin => fin)]
     rw [coreOf_foldl_from c (fun j => some j != some i) (fun j => j) (fun _ => xnode)]
     rw [coreOf_foldl_from' c (fun j => j) (fun _ => i)]
     simp only [ints_coreOf, frm_coreOf, coreOf_gAddFrom]
